@@ -135,7 +135,7 @@ def routing_case(draw, sub, focus="filters"):
     if fastq and draw(st.integers(0, 2)) == 0:
         x = draw(st.sampled_from(finals))
         ee = model.expected_errors(x[2])
-        f["max_ee"] = draw(st.sampled_from([0.5, 1.0, 2.0, round(ee, 3), float(int(ee))]))
+        f["max_ee"] = draw(st.sampled_from([0.5, 1.0, 2.0, round(ee, 3), float(int(ee)), 0]))
     if fastq and draw(st.integers(0, 3)) == 0:
         f["max_aer"] = draw(st.sampled_from([0.01, 0.05, 0.1, 0.3, 0.5]))
     if draw(st.integers(0, 3)) == 0:
